@@ -92,7 +92,7 @@ def _frame_given(t, _d=0):
     return t
 
 
-def _alternatives(t, limit=16):
+def _alternatives(t, limit=16, with_paths=False):
     """the values a term can take, one per combination of its conditionals (up to `limit`; beyond that the term itself)"""
     from ..vg import Ite, App, Tup
 
@@ -117,15 +117,16 @@ def _alternatives(t, limit=16):
         if isinstance(x, Tup):
             return Tup(tuple(subst(c, old, new) for c in x.items), x.kind)
         return x
-    out, todo = [], [t]
+    out, todo = [], [(t, ())]
     while todo:
-        x = todo.pop()
+        x, path = todo.pop()
         it = first_ite(x, set())
         if it is None or len(out) + len(todo) >= limit:
-            out.append(x)
+            out.append((x, path) if with_paths else x)
             continue
-        todo.append(subst(x, it, it.a))
-        todo.append(subst(x, it, it.b))
+        c = show(it.cond, 400)
+        todo.append((subst(x, it, it.a), path + ((c, True),)))
+        todo.append((subst(x, it, it.b), path + ((c, False),)))
     return out
 
 
@@ -207,9 +208,14 @@ def r1(ctx):
                 # every way the coordinate can be printed (the alternatives of the conditionals left once "a frame is
                 # given" is resolved) must go through the transform: `if frame is not None and value.frame.name != frame`
                 # skips it for an FK5 J1975 coordinate under a j2000 line
-                alts = _alternatives(_frame_given(t['expr']))
-                txts = [show(a_, 6000) for a_ in alts]
-                if any(own not in txt or 'frame_transform_graph.lookup_name(' not in txt for txt in txts):
+                alts = _alternatives(_frame_given(t['expr']), with_paths=True)
+
+                def already_there(path):
+                    # the alternative is reached only when the coordinate's frame IS the target frame, attributes included
+                    # (SkyCoord / frame .is_equivalent_frame): nothing to transform
+                    return any('is_equivalent_frame' in c_ and (c_.lstrip('(').startswith('not') != pol) for c_, pol in path)
+                txts = [show(a_, 6000) for a_, path_ in alts if not already_there(path_)]
+                if not txts or any(own not in txt or 'frame_transform_graph.lookup_name(' not in txt for txt in txts):
                     probs.append(f'{t["field"]} is printed in its own frame (with its own frame attributes), not in the frame '
                                  'written on the frame line: a line whose end is galactic and whose start is icrs, or an FK5 '
                                  'coordinate with equinox J1975, comes back with the raw numbers under another frame')
